@@ -300,7 +300,18 @@ class TrafficFilter:
         Returns:
             bool: True if the IP is external, False otherwise
         """
-        return IPv4Address(ip) not in _PRIVATE_IP_RANGES.get(ip[:2], _BLACK_HOLE)
+        address = ip_address(ip)
+        if not isinstance(address, IPv4Address):
+            # IPv6 literal: never raise, and keep loopback / private destinations off the gateway.
+            if address.ipv4_mapped is not None:
+                return self._is_external_ip(str(address.ipv4_mapped))
+            return not (
+                address.is_loopback
+                or address.is_private
+                or address.is_link_local
+                or address.is_unspecified
+            )
+        return address not in _PRIVATE_IP_RANGES.get(ip[:2], _BLACK_HOLE)
 
     def _is_external_domain(self, host: str) -> Optional[bool]:
         """Check whether an HOST is external or not
@@ -314,8 +325,9 @@ class TrafficFilter:
         try:
             return self._is_external_ip(gethostbyname(host))
 
-        except socket_error as error:
-            # If there is a network error, we will avoid storing this and will try again next time.
+        except (socket_error, UnicodeError, ValueError, TypeError) as error:
+            # If there is a network error (or the name cannot even be encoded for resolution, e.g.
+            # an empty or over-long label), we will avoid storing this and will try again next time.
             self._logger.warning(
                 f"TrafficFilter::Could not resolve: '{host}'. Error: {error}"
             )
